@@ -28,12 +28,12 @@ Subset (trusted semantics; cross-checked against the real `LocMap.loc_to_iloc` o
 harness/sfv/props/locmap_grid.py on every run):
   * values: None, Python ints (unbounded `Int`), labels (`L`; only ever passed to `label_to_pos` or tested with
     `is None` / `isinstance(_, np.datetime64)`), the slice `key` (`key.start/.stop` : `Option L`, `key.step` :
-    `Option Int` - a step that is not None has an integer value; whether its class is exactly `int` is the Boolean
-    parameter `key_step_is_int` (False for a np.integer or a bool step): `key.step.__class__ is int` reads `key.step
-    is not None and key_step_is_int`; `isinstance(step, np.datetime64)` is False), strings that are compile-time constants (`field`,
+    `Option Int` - a step that is not None has an integer VALUE, of whatever integer class: Python int, np.integer,
+    bool; a test of its class such as `key.step.__class__ is int` is outside the subset and rejected;
+    `isinstance(step, np.datetime64)` is False), strings that are compile-time constants (`field`,
     SLICE_*_ATTR), Booleans that are compile-time constants on each path (`offset_apply`), `slice(...)` values
   * an expression that may be None is never given a default: using it (arithmetic, comparison, `is None`,
-    `.__class__ is int`, `label_to_pos(_)`) forces a `match`, and each arm is translated with that knowledge
+    `label_to_pos(_)`) forces a `match`, and each arm is translated with that knowledge
     (path-sensitive typing: `offset_apply = not offset is None` is a constant in each arm of the match on `offset`)
   * `+`, `-` on ints (on None: `.error Exc.TypeError`); `<  <=  >  >=  ==  !=` on ints (ordering with None:
     TypeError); `==` / `!=` of two constant strings (folded); `key == <slice constant>` (field-wise, read from the
@@ -67,8 +67,8 @@ UTIL_PY = 'static_frame/core/util.py'
 
 DT_SIG = ('{L : Type} (lookup : L → Option Int) (isDt : L → Bool) '
           '(dtArm : Field → L → Except Exc (Option Int))')
-KEY_SIG = '(key_start key_stop : Option L) (key_step : Option Int) (key_step_is_int : Bool)'
-KEY_ARGS = 'key_start key_stop key_step key_step_is_int'
+KEY_SIG = '(key_start key_stop : Option L) (key_step : Option Int)'
+KEY_ARGS = 'key_start key_stop key_step'
 COMMON_ARGS = 'lookup isDt dtArm'
 
 
@@ -237,7 +237,7 @@ class Tr:
             return k(self.key_field(e.attr), env)
         if v.ty == DICT and e.attr == 'get':
             return k(Val('lookup', LOOKUP), env)       # trusted: dict.get(k) is None for an absent key
-        if e.attr == '__class__' and v.ty in (INT, NONE, OPTINT, LIST, LAB):
+        if e.attr == '__class__' and v.ty in (LIST, LAB):
             return k(Val(None, CLASSOF, fields=[v]), env)
         raise TranslationError(f'attribute outside subset: {ast.unparse(e)}')
 
@@ -358,20 +358,10 @@ class Tr:
                         raise TranslationError(f'`is None` of {v.ty}: {ast.unparse(test)}')
                     return self.tx(left, env, lambda v, e1: self.force(v, e1, isnone))
                 if isinstance(right, ast.Name) and right.id == 'int':
-                    def isint(c, e1):
-                        if c.ty != CLASSOF:
-                            raise TranslationError(f'identity test outside subset: {ast.unparse(test)}')
-
-                        def decided(v, e2):
-                            # a step that is not None has an integer VALUE; whether its class is exactly `int` (and not
-                            # np.integer / bool) is the Boolean parameter key_step_is_int
-                            if v.ty == NONE:
-                                return no(e2)
-                            if v.ty == INT and c.fields[0].term == 'key_step':
-                                return f'if key_step_is_int then\n{ind(yes(e2.copy()))}\nelse\n{ind(no(e2.copy()))}'
-                            raise TranslationError(f'`.__class__ is int` of {ast.unparse(left)}')
-                        return self.force(c.fields[0], e1, decided)
-                    return self.tx(left, env, isint)
+                    # the class of a step is not part of the subset: a test of the CLASS (`key.step.__class__ is int`, the
+                    # pinned code that missed np.integer steps - finding F90, repaired in b8dc316) is rejected; the
+                    # direction of a slice is read from the VALUE of the step (`key.step is not None and key.step < 0`)
+                    raise TranslationError(f'test of the class of an integer: {ast.unparse(test)} (only its value is modelled)')
                 if ast.unparse(right) == 'np.ndarray':
                     def isarr(c, e1):
                         # trusted typing: a Python list / a label is not an ndarray
